@@ -1,6 +1,7 @@
 package main
 
 import (
+	"bytes"
 	"encoding/json"
 	"fmt"
 	"math"
@@ -178,4 +179,22 @@ func minInt(a, b int) int {
 		return a
 	}
 	return b
+}
+
+// capBuf is a stdout capture that stops a runaway script: beyond the limit Write panics inside the native print
+// call, which the VM turns into a run error (the harness process must not be killed for memory by a
+// non-terminating generated program).
+type capBuf struct {
+	bytes.Buffer
+	limited bool
+}
+
+const capBufLimit = 8 << 20
+
+func (c *capBuf) Write(p []byte) (int, error) {
+	if c.Len()+len(p) > capBufLimit {
+		c.limited = true
+		panic("HARNESS OUTPUT LIMIT")
+	}
+	return c.Buffer.Write(p)
 }
